@@ -2,6 +2,7 @@
 
 One interpretation of an operator on a representative grid yields both its exact table (TAB) and its effect
 log with happens-before structure (EFF)."""
+import re
 from . import conc, dag, ir, symdom
 from .conc import Arr, PtrInto, strip_targs
 from .dag import Lin, Node
@@ -268,7 +269,9 @@ class OpsDomain(SymDomain):
             p = PtrInto(p, 0)
         if not isinstance(p, PtrInto):
             raise AnalysisBroken("solveInPlace argument is not a pointer into a vector at %s" % site)
-        if obj.cls.startswith("SparseLUSolver"):
+        if obj.cls.startswith("SparseLUSolver") and "__factorised_table" in obj.f:
+            n = len(obj.f["__factorised_table"].get()[1])
+        elif obj.cls.startswith("SparseLUSolver"):
             n = self.lu_dim
         else:
             n = obj.f["matrix_dimension_"].get()
@@ -337,6 +340,29 @@ class OpsDomain(SymDomain):
                 return dag.func("%s.%s" % (th.kind, m), *vals)
         callee = e.get("callee") or e.get("ctor") or ""
         base = strip_targs(callee)
+        if k == "OpCall" and e.get("op") == "=" and len(e["args"]) == 2 and (e.get("callee") or "").startswith("SparseLUSolver<double>::operator="):
+            # assignment of a (summarised) LU solver: the target becomes that solver object
+            c = it.eval(e["args"][0], fr)
+            v = it.rvalue(e["args"][1], fr)
+            if isinstance(c, Cell) and isinstance(v, Obj) and "__factorised_table" in v.f:
+                c.set(v)
+                return c
+            raise AnalysisBroken("assignment of a SparseLUSolver that was not constructed from a matrix at %s" % ir.locstr(e))
+        if k == "Construct" and re.match(r"^(const\s+)?std::vector<\s*((SymmetricTridiagonalSolver|DiagonalSolver)<double>)\s*>", e.get("t", "").strip()) and not e["args"]:
+            return ObjVec(re.match(r"^(const\s+)?std::vector<\s*((SymmetricTridiagonalSolver|DiagonalSolver)<double>)\s*>", e.get("t", "").strip()).group(2), "solvers")
+        if k == "Construct" and (e.get("ctor") or "").startswith("SparseLUSolver<double>::SparseLUSolver") and len(e["args"]) == 1 and not e.get("copy") and not e.get("move"):
+            # factorisation is summarised (its arithmetic is C16's): the solver object remembers, as an exact table, the
+            # matrix it was handed AT THIS MOMENT; the checks compare it with the matrix the owner ends up holding
+            m = it.rvalue(e["args"][0], fr)
+            if isinstance(m, Obj) and m.cls.startswith("SparseMatrixCSR"):
+                o = self.new_object("SparseLUSolver<double>", None, None)
+                if not isinstance(m.f["rows_"].get(), int) or not isinstance(m.f["row_start_indices_"].get(), Arr):
+                    T, probs = {}, ["the matrix handed to the factorisation is still default-constructed (no rows)"]
+                else:
+                    T, probs = csr_table(m)
+                o.f["__factorised_table"] = Cell(("table", T, tuple(probs), ir.locstr(e)), "__factorised_table")
+                self.lu_constructions = getattr(self, "lu_constructions", []) + [(o, ir.locstr(e))]
+                return o
         if k == "Construct" and e.get("t", "").replace("const ", "").startswith(("std::vector<double", "Vector<double")) and not e.get("copy") and not e.get("move"):
             args = e["args"]
             if not args:
